@@ -135,11 +135,45 @@ def r3(ctx):
         yield VIOL("C06-R3", "from_str/copies", "expected 2 copies (prefix, secret), found %d" % len(copies), where=loc(b.j["span"]))
         return
 
+    def split_base(o):
+        """(offset form, limit form, block) if o is one half of `buf.split_at_mut(K)` (K constant): .0 = [0..K], .1 = [K..M]."""
+        od_ = b.origin_def(o)
+        for _ in range(4):
+            if od_ and od_[0] == "def" and od_[1]["kind"] == "call" and re.search(r"ops::DerefMut::deref_mut$|ops::Deref::deref$", od_[1]["term"]["callee"]):
+                od_ = b.origin_def(od_[1]["term"]["args"][0])
+            else:
+                break
+        if not (od_ and od_[0] == "place"):
+            return None
+        fs_ = [e for e in od_[1]["proj"] if isinstance(e, dict) and "field" in e]
+        sd_ = b.single_def(od_[1]["local"])
+        if not (fs_ and sd_ and sd_["kind"] == "call" and re.search(r"slice::<impl \[T\]>::split_at_mut$", sd_["term"]["callee"])):
+            return None
+        k_ = const_value(op_const(sd_["term"]["args"][1]) or op_const(b.resolve_copy(sd_["term"]["args"][1])) or {})
+        if not isinstance(k_, int):
+            return None
+        return (lf_const(0), lf_const(k_), sd_["block"]) if fs_[0]["idx"] == 0 else (lf_const(k_), {"M": 1, 1: 0}, sd_["block"])
+
     def dst_range(t):
         """(start form, end form or None) of the destination sub-slice of prefixed_key."""
+        sb = split_base(t["args"][0])
+        if sb is not None:
+            return (sb[0], sb[1], (sb[2], None))  # a whole half of split_at_mut
         sl = b.slice_op(t["args"][0], int_barrier=False)
         im = sl.find_calls(r"ops::IndexMut::index_mut$")
         if not im:
+            return None
+        sb = split_base(im[0][1]["args"][0])
+        if sb is not None:
+            # a sub-range of one half: offsets are relative to that half
+            od = b.origin_def(im[0][1]["args"][1])
+            if od and od[0] == "def" and od[1]["kind"] == "assign" and od[1]["stmt"]["rv"]["k"] == "aggregate":
+                rv = od[1]["stmt"]["rv"]
+                kind = rv.get("adt", "").split("::")[-1]
+                ops = rv["ops"]
+                rs, re_ = (lin.form(ops[0]), lin.form(ops[1])) if kind == "Range" else (lf_const(0), lin.form(ops[0])) if kind == "RangeTo" else (lin.form(ops[0]), lf_add(sb[1], sb[0], -1)) if kind == "RangeFrom" else (None, None)
+                if rs is not None and re_ is not None:
+                    return (lf_add(sb[0], rs), lf_add(sb[0], re_), im[0])
             return None
         od = b.origin_def(im[0][1]["args"][1])
         if not (od and od[0] == "def" and od[1]["kind"] == "assign" and od[1]["stmt"]["rv"]["k"] == "aggregate"):
@@ -155,6 +189,12 @@ def r3(ctx):
             return (lin.form(ops[0]), {"M": 1, 1: 0}, im[0])
         return None
 
+    # `split_at_mut(K)` panics unless K <= M: the capacity test must already hold there
+    for sb_b, sb_t in b.calls(r"slice::<impl \[T\]>::split_at_mut$"):
+        k_ = const_value(op_const(sb_t["args"][1]) or op_const(b.resolve_copy(sb_t["args"][1])) or {})
+        if not isinstance(k_, int) or not entails(lin.facts_at(sb_b), lf_add(lf_const(k_), {"M": 1, 1: 0}, -1)):
+            yield VIOL("C06-R3", "from_str/split-bound", "split_at_mut(%s) is not preceded by a test showing %s <= M on every path" % (k_, k_), where=b.span_of_block(sb_b))
+            return
     prefix_ok = secret_ok = False
     for cb, ct in copies:
         rg = dst_range(ct)
